@@ -17,6 +17,8 @@ func init() {
 		for i := 0; i < c.NRand; i++ {
 			if c.Mode == "c07" {
 				scripts = append(scripts, fam_restake.RandomScriptC07(c.Rng))
+			} else if i%3 == 2 {
+				scripts = append(scripts, fam_restake.JailScript(c.Rng))
 			} else {
 				scripts = append(scripts, fam_restake.RandomScriptC16(c.Rng))
 			}
